@@ -29,7 +29,7 @@ func init() {
 func clampIdiom(c *eng.Ctx, fn *ssa.Function, min int) {
 	p := c.P
 	n := 0
-	for _, b := range fn.Blocks {
+	for _, b := range eng.BlocksT(fn) {
 		for _, in := range b.Instrs {
 			st, ok := in.(*ssa.Store)
 			if !ok {
